@@ -27,6 +27,8 @@ from the worksharing induction variable is assumed, read/write conflicts are not
  block-clip     `B = (N + T - 1) / T; ip = B * t`: the block bound is clipped against N on every value path
  block-cover    T blocks of size B cover N: ceil idiom, or (floor-derived B) one block takes the remainder
  team-split     a block split indexed by omp_get_thread_num() is not sized by omp_get_max_threads()
+ fill-extent    compute arm vs zero/skip arm of one work item write the same rows of the item's block
+ partial-aggregate a thread-private value only accumulated in a worksharing loop is not used as the team result
  fp-table       calls through function pointers are resolved (targets read off the Python ctypes
                 call sites and C assignments), so that callee write summaries apply
  callback-global C functions handed to a parallel driver as callbacks write no global / static
@@ -462,12 +464,33 @@ def rule_mkl_variant(chk, base_lines):
              "declaration-only mkl.h written to a scratch directory); %d additional region(s)" % len(regions)}
 
 
+def rule_fill_extent(chk, prog, tus):
+    """compute branch vs zero/skip branch of one work item must write the same rows of the item's block"""
+    for r in omp.fill_extents(prog, set(tus)):
+        f = r["func"]
+        if r["ok"]:
+            chk.ok("fill-extent", r["inst"], nontrivial=not r["unknown"], detail=r["detail"])
+            if r["unknown"]:
+                chk.note("fill-extent", "%s:%s" % (f.tu.rel, f.name), r["detail"])
+        else:
+            chk.violation("fill-extent", LIBP + f.tu.rel, f.name,
+                          "alternative branches write different extents of the block behind *%s" % r["pname"],
+                          f.tu.line_of(r["node"]),
+                          "%s: %s. The rows beyond the ones the work item owns belong to the next item, which another "
+                          "iteration of the work-shared loop that calls this function (another thread) writes: a data "
+                          "race, plus a deterministic overwrite / out-of-bounds write at the end of the block. Expected "
+                          "both arms to write the same rows (same row count per call, no overlapping calls)" % (
+                              r["inst"], r["detail"]), instance=r["inst"])
+
+
 def analyse(chk):
     chk.rule("region", "every parallel region parsed and every store in it classified")
     chk.rule("shared-store", "stores to team-shared memory are partitioned by the worksharing variable / thread "
                              "id, protected, a reduction, or a named exception")
     chk.rule("ws-uniform", "worksharing loops, single and barrier are reached by all threads of the team")
     chk.rule("tid-scratch", "buffers split by thread id are sized by the thread count")
+    chk.rule("fill-extent", "the compute arm and the zero/skip arm of a work item write the same rows of its block "
+                            "(rows x stride footprints of the callees, compared symbolically)")
     chk.rule("partial-aggregate", "a thread-private value accumulated in a worksharing loop is not used as the "
                                   "team-wide result (applied by one thread only, or used under another distribution)")
     chk.rule("block-cover", "T blocks of the chosen size cover the total (ceil idiom, or a remainder branch)")
@@ -483,9 +506,11 @@ def analyse(chk):
     base_lines = chk.guard(rule_regions, prog, tus)
     if base_lines is not None:
         chk.guard(rule_mkl_variant, base_lines)
+    chk.guard(rule_fill_extent, prog, tus)
     chk.floor("region", 50, "108 parallel regions on the pinned tree; floor = half, a floor only guards against a vacuous pass")
     chk.floor("shared-store", 170, "350 stores/output arguments reaching shared memory on the pinned tree")
     chk.floor("ws-uniform", 55, "119 worksharing/single/barrier constructs on the pinned tree")
+    chk.floor("fill-extent", 1, "SDMXeval_rad_iter and SDMXeval_sph_iter on the pinned tree")
     chk.floor("block-cover", 3, "7 block splits by a thread count on the pinned tree")
     chk.floor("block-clip", 3, "7 ceil-split block bounds on the pinned tree")
     chk.floor("barrier-order", 2, "4 dependences between differently partitioned accesses that can both execute (pinned tree)")
@@ -571,8 +596,6 @@ def mutants(tree):
     MU = LIBP + "mod_cider/model_utils.c"
     NR = LIBP + "numint_cider/nr_numint.c"
     m = []
-    m.append(Mutant("delete `#pragma omp for` (cider_coefs_vk1_gq)", CO, expect="shared-store",
-                    fn=_in_func(CO, "cider_coefs_vk1_gq", "#pragma omp for\n", "")))
     m.append(Mutant("delete `#pragma omp for` around a dgemm (multiply_atc_integrals)", CV, expect="shared-store",
                     fn=_in_func(CV, "multiply_atc_integrals", "#pragma omp for schedule(dynamic, 4)\n", "")))
     m.append(Mutant("delete `#pragma omp for` nested in a serial loop (cider_coefs_vk1_qg)", CO,
@@ -607,10 +630,6 @@ def mutants(tree):
     m.append(Mutant("index shared array by the inner, non-partitioned variable (cider_coefs_vk1_gq)", CO,
                     expect="shared-store",
                     fn=_in_func(CO, "cider_coefs_vk1_gq", "p_ga[g * nalpha + a] = exp(", "p_ga[a] = exp(")))
-    m.append(Mutant("dgemm output block no longer selected by the worksharing variable (reduce_angc_to_ylm)", CG,
-                    expect="shared-store",
-                    fn=_in_func(CG, "reduce_angc_to_ylm", "theta_lmq = theta_rlmq + r * nlm * nalpha;",
-                                "theta_lmq = theta_rlmq;")))
     m.append(Mutant("remove `private(...)` of variables declared outside the region (pbc_tools.c)", PB,
                     expect="shared-store", regex=True,
                     old=r"(#pragma omp parallel for collapse\(3\)) private\([^)]*\)", new=r"\1"))
@@ -669,6 +688,20 @@ def mutants(tree):
     m.append(Mutant("per-thread partial sums applied by the master thread only (add_lp1_term_grad)", CI,
                     expect="partial-aggregate",
                     fn=_in_func(CI, "add_lp1_term_grad", "#pragma omp critical\n", "#pragma omp master\n")))
+    m.append(Mutant("zero branch clears nc rows from each of nc consecutive start rows (fix 68a956a reverted)", FS,
+                    expect="fill-extent",
+                    fn=_in_func(FS, "SDMXeval_rad_iter",
+                                "                    _dset0(vbas + (i * nalpha * nao + sh) * ngrids, ngrids,\n"
+                                "                           bgrids, nc);\n",
+                                "                    for (int k = 0; k < rf_loc[bas_id + 1] - rf_loc[bas_id]; k++) {\n"
+                                "                        _dset0(vbas + (i * nalpha * nao + sh + k) * ngrids,\n"
+                                "                               ngrids, bgrids, nc);\n                    }\n")))
+    m.append(Mutant("zero branch clears nc + 1 rows (SDMXeval_rad_iter)", FS, expect="fill-extent",
+                    fn=_in_func(FS, "SDMXeval_rad_iter", "                           bgrids, nc);\n",
+                                "                           bgrids, nc + 1);\n")))
+    m.append(Mutant("zero branch of the sibling clears one row more than nc * deg (SDMXeval_sph_iter)", FS,
+                    expect="fill-extent",
+                    fn=_in_func(FS, "SDMXeval_sph_iter", "nc * deg);", "nc * deg + 1);")))
     m.append(Mutant("callback run by the parallel driver stores to a global (GTOcontract_flapl0)", FL,
                     expect="callback-global",
                     fn=_in_func(FL, "GTOcontract_flapl0", "    double *my_spline = SPLINE + l * 4 * SPLINE_SIZE;\n",
